@@ -92,6 +92,15 @@ func (c11) Run(c *mon.Ctx, i int) {
 	r := c.R
 	wrapper := []string{"flate", "flate", "gzip", "zlib"}[i%4]
 	d := gen.RandomData(r, 60000)
+	switch i % 8 {
+	case 5:
+		// highly compressible data a little over the 64 KiB history buffer: the
+		// last few compressed bytes stand for more output than the buffer has room
+		// for, so the output side fills up after all input has been taken in
+		d = gen.Make(r, []string{"equal", "period", "runs", "alpha2"}[r.Intn(4)], 65536*r.Range(1, 3)+r.Range(1, 3100))
+	case 6:
+		d = gen.RandomData(r, 300000)
+	}
 	if len(d.B) == 0 {
 		d = gen.Make(r, "text", 100)
 	}
